@@ -14,6 +14,7 @@ KINDS = ["RSI", "FAST", "SLOW", "MFI", "ER"]
 
 def gen_cases(ctx):
     r = ctx.rng
+    rot = Rot(r)
     cases = []
     for ind in KINDS:
         periods = list(range(1, 9)) + [r.choice([14, 50, 200, 512]) for _ in range(1 if not ctx.thorough else 4)]
@@ -23,10 +24,10 @@ def gen_cases(ctx):
                 pr = (p, r.choice([1, 3, 5]) if ind == "SLOW" else 0, 0, 0.0)
                 bars = ind == "MFI" or (ind in ("FAST", "SLOW") and rep % 2 == 1)
                 if bars:
-                    st = r.choice(["walk", "segments", "gaps", "grid", "tinybars"])
+                    st = rot.pick((ind, "b"), ["walk", "segments", "gaps", "grid", "tinybars"])
                     feeds = [("b", 0) + b for b in bar_stream(r, n, st, p=p)]
                 else:
-                    st = r.choice(["walk", "ties", "periodic", "pgrid", "flatafter", "segments", "uniform", "tiny", "huge", "crash", "crash"])
+                    st = rot.pick((ind, "n"), ["walk", "ties", "periodic", "pgrid", "flatafter", "segments", "uniform", "tiny", "huge", "crash"])
                     feeds = [("n", 0, x) for x in scalar_stream(r, n, st, p=p, positive=True)]
                 if rep % 3 == 2:
                     feeds = sprinkle_serde(feeds, r)
